@@ -160,7 +160,7 @@ def scenarios(tier="quick"):
     rrp = AbsReaderReplay(_br_op, _br_extra, _br_rebuild)
     return [
         Scenario("Blob::write any INV state, any length", blob_write_scenario(n), blob_write_claims, max_paths=800, replayer=wrp),
-        Scenario("Blob::write with source delivering arbitrary chunks", blob_write_scenario(1500, src_mode="short", max_short=1 if tier == "quick" else 2), blob_write_claims, max_paths=1500, time_budget=900, replayer=wrp),
+        Scenario("Blob::write with source delivering arbitrary chunks", blob_write_scenario(1500, src_mode="short", max_short=1), blob_write_claims, max_paths=1500, time_budget=900, replayer=wrp),
         Scenario("Blob::read any descriptor over any device", blob_read_scenario(max_len=3000), blob_read_claims, max_paths=800, replayer=rrp),
     ]
 
